@@ -49,3 +49,6 @@ for nm, anchor, sets in (('is_state_active', 'bool is_state_active ( ) const', 1
     UNITS.append(Unit('backmp11.' + nm, ['C17', 'C03', 'C11', 'C13'], 'backmp11', Part(SB, [], anchor), '_Bool query_active(fsm_t* self)', 'visitor_mp11.spec.h',
         xform=back_xform([], refparams=(), enums=ENUMS, drop=DROP2, rewrites=QRW), defines=['VIS_SETS=%d' % sets],
         must_contain=[(SV, 'bool m_result { false } ;'), (SV, 'bool m_result { true } ;')], replay=['block']))
+UNITS.append(Unit('backmp11.get_active_state_ids', ['C03', 'C13'], 'backmp11', Part(SB, [], 'const active_state_ids_t & get_active_state_ids ( ) const'),
+    'const uint16_t* get_active_state_ids(const fsm_t* self)', 'visitor_mp11.spec.h',
+    xform=back_xform([], refparams=(), members=['m_active_state_ids'], enums=ENUMS, drop=DROP2), replay=['order']))
